@@ -135,3 +135,13 @@ package gem
 // ---- the registered name (the VERS evaluator and the CLI select behaviour by it)
 //@ func (*Ecosystem).Name
 //@   ensures result == "gem"   [C04 C15 C17]
+
+// --- round 20: the canonicaliser writes every rune of its input in order and puts a dot exactly at every digit/non-digit
+// boundary where neither neighbour is a dot (gemDotted is the text after k runes)
+//@ spec gemDig(r int) bool = r >= '0' && r <= '9'
+//@ spec gemBoundary(p int, r int) bool = gemDig(p) != gemDig(r) && p != '.' && r != '.'
+//@ spec gemDotted(s string, k int) string = k <= 0 ? "" : ((k >= 2 && gemBoundary(rune_val(s, k - 2), rune_val(s, k - 1))) ? gemDotted(s, k - 1) + runestr('.') : gemDotted(s, k - 1)) + runestr(rune_val(s, k - 1))
+//@ func addDotsBetweenNumericAndAlpha
+//@   loop 1 invariant dots: rangeindex < rune_count(s) && result == gemDotted(s, rangeindex + 1) && (rangeindex >= 0 ==> prev == rune_val(s, rangeindex))   [C13]
+//@   ensures dots: len(s) > 0 ==> result == gemDotted(s, rune_count(s))   [C13] using dots
+//@   ensures empty: len(s) == 0 ==> result == s   [C13]
